@@ -77,3 +77,41 @@ theorem takeOptCons_other (tag t : Nat) (c rest : Bytes) (ht : t % 32 ≠ 31)
   simp only [takeOptCons, ht, if_false, ne_eq, hne, not_false_eq_true, if_true]
 
 end Rpki.Der
+
+namespace Rpki.Der
+
+/-- capture / iterate parity of the capturing decoders (stated as a property theorem in `Props/C04.lean`) -/
+theorem capture_iterate_parity {α : Type} (take : Bytes → Take α) (check : α → Bool) :
+    ∀ (fuel : Nat) (b : Bytes) (n k : Nat), capturePass take check fuel b n = some k →
+      ∃ items, iteratePass take fuel b = some items ∧ items.length + n = k ∧ ∀ a ∈ items, check a = true := by
+  intro fuel
+  induction fuel with
+  | zero =>
+    intro b n k h
+    simp only [capturePass] at h
+    split at h
+    · injection h with h; exact ⟨[], rfl, by simpa using h, by simp⟩
+    · cases h
+  | succ f ih =>
+    intro b n k h
+    rw [capturePass] at h
+    cases ht : take b with
+    | absent =>
+      simp only [ht] at h
+      split at h
+      · injection h with h; exact ⟨[], by rw [iteratePass, ht], by simpa using h, by simp⟩
+      · cases h
+    | bad => simp [ht] at h
+    | ok a rest =>
+      simp only [ht] at h
+      by_cases hc : check a = true
+      · simp only [hc, if_true] at h
+        obtain ⟨items, h1, h2, h3⟩ := ih rest (n + 1) k h
+        refine ⟨a :: items, by rw [iteratePass, ht]; simp only [h1]; rfl, by simp; omega, ?_⟩
+        intro x hx
+        rcases List.mem_cons.1 hx with e | e
+        · rw [e]; exact hc
+        · exact h3 x e
+      · simp [hc] at h
+
+end Rpki.Der
